@@ -15,7 +15,7 @@ package main
 //@ import "encoding/pem"
 //@ import "net"
 //@ import "database/sql"
-//@ use strings nethttp fmt oauth2 neturl time ssh crypto errors x509 keymasterd_jose pwauth cfssl math keymasterd_rate logging sync html
+//@ use strings nethttp fmt oauth2 neturl time ssh crypto errors x509 keymasterd_jose pwauth cfssl math keymasterd_rate logging sync html sql
 
 // ---- C17: post-login redirects stay on the keymaster origin ------------------------------------
 //@ pure func noControlBytes(s string) bool = (forallIdx j int :: 0 <= j && j < len(s) ==> s[j] >= 0x20 && s[j] != 0x7f)
@@ -608,6 +608,7 @@ package main
 //@ ghost var ghostSyncClearedProfiles bool
 //@ ghost var ghostSyncClearedSigned bool
 //@ ghost var ghostSyncStepFailed bool
+//@ ghost var ghostScanned []any
 //@ ghost var ghostSyncUncheckedRows *sql.Rows
 //@ func copyDBIntoSQLite
 //@   handler copyDBIntoSQLite
@@ -618,6 +619,9 @@ package main
 //@   atcall (*database/sql.Tx).Prepare requires (tx2 *sql.Tx, query string) :: tx2 == ghostSyncTx && ghostSyncClearedProfiles && ghostSyncClearedSigned   #C15.inserts-in-the-transaction-after-clearing @C15
 //@   atcall (*database/sql.DB).Prepare requires (db *sql.DB, query string) :: false   #C15.no-statement-prepared-outside-the-transaction @C15
 //@   atcall (*database/sql.DB).Exec requires (db *sql.DB, query string, args []any) :: false   #C15.no-statement-executed-outside-the-transaction @C15
+// each signed record is copied column by column: what is written is what was just read, in the same order
+//@   atcall (*database/sql.Rows).Scan sets ghostScanned []any (rows2 *sql.Rows, dest []any, err2 error) :: dest
+//@   atcall (*database/sql.Stmt).Exec requires (st *sql.Stmt, args []any) :: len(args) == len(ghostScanned) && (len(args) == 5 ==> asType[string](args[0]) == *asType[*string](ghostScanned[0]) && asType[int](args[1]) == *asType[*int](ghostScanned[1]) && asType[string](args[2]) == *asType[*string](ghostScanned[2]) && asType[int64](args[3]) == *asType[*int64](ghostScanned[3]) && asType[int64](args[4]) == *asType[*int64](ghostScanned[4]))   #C15.rows-copied-column-by-column @C15
 // a step that failed (a row that could not be read or written) never leads to a commit: the cache keeps its previous content
 //@   atcall (*database/sql.Stmt).Exec sets ghostSyncStepFailed bool (st *sql.Stmt, args []any, res sql.Result, err2 error) :: true if err2 != nil
 //@   atcall (*database/sql.Rows).Scan sets ghostSyncStepFailed bool (rows2 *sql.Rows, dest []any, err2 error) :: true if err2 != nil
